@@ -37,6 +37,12 @@ def run(rep, tier, seed):
     n = 120 if tier == "quick" else 1500
     cases = lf.bnf_cases(rng, n, tts=("LALR", "LALR_PAGER"), algo="LR",
                          max_len=4 if tier == "quick" else 5, n_sent=8, n_mut=8)
+    from gram import layered_grammar
+    cases += lf.bnf_cases(rng, 250 if tier == "quick" else 3000, tts=("LALR", "LALR_PAGER"), algo="LR",
+                          max_len=3 if tier == "quick" else 4, n_sent=12, n_mut=12, generator=layered_grammar)
+    from gram import diamond_grammar
+    cases += lf.bnf_cases(rng, 100 if tier == "quick" else 1500, tts=("LALR", "LALR_PAGER"), algo="LR",
+                          max_len=3, n_sent=12, n_mut=12, generator=diamond_grammar)
     def extra(c):
         kinds = {t: i + 1 for i, t in enumerate(c.gram.terms)}
         rq = ["rawdet", "cert complete-parts", "cert c01"]
@@ -86,7 +92,9 @@ def check_cases(rep, cases, proofs_ok):
                 corr_breaks.append((c, k))
             distinct.add((c.text, c.settings[1], c.inputs[k][2]))
     rep.counters["distinct_nontrivial"] = len(distinct)
-    rep.cov["rule"] = ("random BNF grammars (1-4 nonterminals, <=3 alternatives, rhs 0-4, EMPTY, recursion of any kind) "
+    rep.cov["rule"] = ("random BNF grammars (1-4 nonterminals, <=3 alternatives, rhs 0-4, EMPTY, recursion of any kind) and layered "
+                       "grammars (5-11 nonterminals, unit-rule chains joining at shared nonterminals, nullable leaves) and diamond grammars (2-3 unit-rule chains of different "
+                       "lengths joining above a nullable/recursive leaf, extra contexts; LALR(1) by construction) "
                        "x {LALR, LALR_PAGER}; in scope iff Lean `Table.rawDeterministic` holds of the dumped items; inputs: all "
                        "strings up to the length bound over the grammar's terminals + random sentences + mutations; "
                        "distinct = (grammar, table type, input)")
@@ -94,9 +102,15 @@ def check_cases(rep, cases, proofs_ok):
         if c.dump is not None and c.results:
             rep.sample({"grammar": c.text, "settings": " ".join(c.settings), "input": c.inputs[len(c.inputs) // 2][2],
                         "impl": c.results[len(c.inputs) // 2][:200]})
-    failures.sort(key=lambda f: (len(f[0].text), len(f[0].inputs[f[1]][2]) if f[1] is not None else 0))
-    for c, k, why in failures[:3]:
+    with_input = sorted([f for f in failures if f[1] is not None], key=lambda f: (len(f[0].text), len(f[0].inputs[f[1]][2])))
+    cert_only = sorted([f for f in failures if f[1] is None], key=lambda f: len(f[0].text))
+    rep.counters["certificate_failures"] = len(cert_only)
+    for c, k, why in with_input[:3]:
         rep.violation(dict(c.describe(k), why=why, kind="impl!=oracle"))
+    if not with_input:
+        for c, k, why in cert_only[:1]:
+            rep.violation(dict(c.describe(k), why=why + " -- no input found on which Ok/Err disagrees with the membership oracle",
+                               kind="certificate", n_failures=len(cert_only)), no_input=True)
     if not failures:
         if corr_breaks:
             c, k = min(corr_breaks, key=lambda f: (len(f[0].text), len(f[0].inputs[f[1]][2])))
@@ -124,6 +138,7 @@ def replay(rep, path):
     toks = [t for ch in p["input"] if not ch.isspace() for t, c in g.terms.items() if c == ch]
     c = lf.Case(p["grammar"], p["settings"].split(" "), [(p.get("algo", "LR"), p.get("partial", "0"), p["input"], {"toks": toks})], gram=g)
     kinds = {t: i + 1 for i, t in enumerate(g.terms)}
+    lf.apply_replay_history(c, p)
     lf.run_cases([c], extra_requests=lambda c: ["rawdet", "cert complete-parts", "cert c01",
                                                  "tlr " + (",".join(str(kinds[t]) for t in toks) or "-")])
     check_cases(rep, [c], True)
